@@ -117,4 +117,9 @@ def opOfName : String → Option BinOp
   | "gt" => some .gt | "ge" => some .ge | "and" => some .and | "or" => some .or | "xor" => some .xor
   | _ => none
 
+def renderResult (k : Kind) (r : Except Err (Operand Val)) : String :=
+  match r with
+  | .error _ => "err"
+  | .ok o => operandText k o
+
 end MechVerif.Driver
